@@ -48,7 +48,7 @@ Fixpoint trace_ok (o : list effect) : Prop :=
   | [] => True
   | EState i f t _ _ :: r =>
     f = last_state r i /\ f <> t /\
-    (edge f t = true \/ (t = UNKNOWN /\ unknown_entry f = true /\ failed_kill_first r = true)) /\
+    (edge f t = true \/ (t = UNKNOWN /\ failed_kill_first r = true)) /\
     trace_ok r
   | _ :: r => trace_ok r
   end.
